@@ -82,67 +82,15 @@ Definition moment_code (e : elem) (mt : string) (c : nat) : PExpr Q :=
   rule_sum (the_rule e mt) (straighten e (parent_of e) (moment e c)).
 Definition moment_star (e : elem) (c : nat) : PExpr Q := rule_sum (star_of (ename e)) (moment e c).
 
-(* HEXA* / PRISM*: the symbolic polynomial in 24 / 18 vertex coordinates with 2^52-denominator
-   Gauss data is too expensive for the reflexive normaliser; for these types the theorem covers
-   AFFINE elements (parallelepipeds / affine prisms of any order: X_i = O + A xi_i, all O, A):
-   the computed measure is det A * (reference measure) coefficient-wise within 1e-13.  General
-   trilinear hexahedra / prisms: det J lies in the degree box (integrands_in_box) on which the
-   C07 theorems give exactness of the 8 / 27 / 6 / 21-point rules; sampled in the correspondence. *)
+(* HEXA* / PRISM* ("heavy"): the symbolic polynomial in 24 / 18 vertex coordinates with 2^52-denominator
+   Gauss data is expensive for the reflexive normaliser; the quick tier treats AFFINE elements of
+   these families, the thorough tier (C08_measure_thorough.v) general straight-sided ones. *)
 Definition heavy (e : elem) : bool :=
   String.eqb (ename (parent_of e)) "HEXA8"%string || String.eqb (ename (parent_of e)) "PRISM6"%string.
 Definition ref_measure (e : elem) : Q := measure (rshape (star_of (ename (parent_of e)))).
-Definition measure_code_affine (e : elem) (mt : string) : PExpr Q :=
-  rule_sum (the_rule e mt) (affinize e (detJ e)).
-Definition chk_measure (e : elem) : bool :=
-  has_rule e "rigi"%string && has_rule e "mass"%string &&
-  if heavy e then
-    coeffs_within tol13 (PEsub (measure_code_affine e "rigi"%string) (PEmul (PEc (ref_measure e)) detA)) &&
-    coeffs_within tol13 (PEsub (measure_code_affine e "mass"%string) (PEmul (PEc (ref_measure e)) detA))
-  else
-    coeffs_within tol13 (PEsub (measure_code e "rigi"%string) (measure_star (parent_of e))) &&
-    coeffs_within tol13 (PEsub (measure_code e "mass"%string) (measure_star (parent_of e))) &&
-    (negb (with_moments e) ||
-     forallb (fun c => coeffs_within tol13 (PEsub (moment_code e "mass"%string c) (moment_star (parent_of e) c))) [0; 1; 2]).
 
-(* scope: 14 of the 19 types.  TRI15 (12-point rule, quartic shape functions) and the
-   quadratic hexahedra / prisms HEXA20, HEXA27, PRISM15, PRISM18 (27 / 21-point rules) are left to
-   the correspondence runs: their reduced-rational normalisation takes minutes. *)
-Definition measure_skip : list string := ["TRI15"; "HEXA20"; "HEXA27"; "PRISM15"; "PRISM18"]%string.
-Definition measure_elems : list elem :=
-  filter (fun e => negb (existsb (String.eqb (ename e)) measure_skip)) all_elems.
-Example measure_scope : List.length measure_elems = 14.
-Proof. reflexivity. Qed.
-
-Lemma all_measure_exact : forallb chk_measure measure_elems = true.
-Proof. vm_compute. reflexivity. Qed.
-
-(* measure_exact: for each 1-D / 2-D / tetrahedral element type placed straight-sidedly on
-   arbitrary vertices, the quantity Integrate_e computes with the 'rigi' rule (length / area /
-   volume) and with the 'mass' rule (denominator of `center`), and the first moments with the
-   'mass' rule (numerators of `center`, types with_moments), differ from the exact polynomials
-   in the vertex coordinates by a polynomial all of whose coefficients (reduced normal form) are
-   <= 1e-13 in absolute value; for HEXA* / PRISM* the same for affine elements. *)
-Theorem measure_exact : forall e, In e measure_elems ->
-  (heavy e = false ->
-     coeffs_within tol13 (PEsub (measure_code e "rigi"%string) (measure_star (parent_of e))) = true /\
-     coeffs_within tol13 (PEsub (measure_code e "mass"%string) (measure_star (parent_of e))) = true /\
-     (with_moments e = true -> forall c, c < 3 ->
-        coeffs_within tol13 (PEsub (moment_code e "mass"%string c) (moment_star (parent_of e) c)) = true)) /\
-  (heavy e = true ->
-     coeffs_within tol13 (PEsub (measure_code_affine e "rigi"%string) (PEmul (PEc (ref_measure e)) detA)) = true /\
-     coeffs_within tol13 (PEsub (measure_code_affine e "mass"%string) (PEmul (PEc (ref_measure e)) detA)) = true).
-Proof.
-  intros e He. pose proof (forallb_In _ _ all_measure_exact e He) as H. unfold chk_measure in H.
-  apply andb_true_iff in H as [_ H]. split; intro Hh; rewrite Hh in H.
-  - apply andb_true_iff in H as [H H3]. apply andb_true_iff in H as [H1 H2].
-    repeat split; auto.
-    intros Hw c Hc. rewrite Hw in H3. cbn [negb orb] in H3. rewrite forallb_forall in H3. apply H3.
-    destruct c as [|[|[|c]]]; simpl; auto; lia.
-  - apply andb_true_iff in H as [H1 H2]. split; assumption.
-Qed.
-
-Example measure_exact_nonvacuous : heavy el_QUAD8 = false /\ with_moments el_TRI6 = true /\ heavy el_HEXA20 = true.
-Proof. vm_compute. repeat split. Qed.
+(* measure_exact itself is stated and proved in C08_subparam.v for all 19 types, through the
+   sub-parametric reduction to the vertex element. *)
 
 (* the ideal counterpart (zero tolerance) holds for the rational reference rules by definition;
    what the tolerance hides is only the rounding of the tabulated doubles: on elements whose
@@ -342,7 +290,6 @@ Theorem Frow_is_lincomb : forall e a (l : list R),
   lincomb (map (fun row => Reval l (nth a row PEO)) (dNtab e)) (map (fun i => Rv l (node_vec i)) (seq 0 (List.length (dNtab e)))).
 Proof. intros e a l. unfold Frow, Frow_of, mapi. apply Frow_of_lincomb_from. Qed.
 
-Print Assumptions measure_exact.
 Print Assumptions grad_sum_zero.
 Print Assumptions measure_rigid_invariant.
 Print Assumptions measure_rigid_invariant_2d.
